@@ -81,6 +81,8 @@ def make_case(rng, cid, what):
     """what: set of batches wanted: valid, broken, sources, groups, raw"""
     if "sources" in what and rng.random() < 0.3:
         return source_multi_case(rng, cid)
+    if "groups" in what and rng.random() < 0.25:
+        return group_freevalue_case(rng, cid)
     for _ in range(50):
         args, globs, abbr = G.gen_config(rng)
         uses = G.gen_uses(rng, args, globs)
@@ -252,15 +254,41 @@ def make_case(rng, cid, what):
             r = G.break_rule(rng, args, globs, uses, abbr)
             if r is not None and r[1] is not None:
                 add("pa group %s -- %s" % (opt, words_hex(r[1])), "throw", "group-broken:" + r[0])
-        # free values behind a key of another member (multi-value arguments)
-        mv = [i for i, a_ in enumerate(args) if a_.kind == "vec" and a_.multi and a_.maxuses() >= 99 and not a_.cons]
-        fl = [i for i, a_ in enumerate(args) if a_.kind == "flag" and not a_.cons and a_.short]
-        if mv and fl and not globs:
-            i, f = rng.choice(mv), rng.choice(fl)
-            key = ("-" + args[i].short) if args[i].short else ("--" + args[i].long)
-            ws = [key, "1", "2", "-" + args[f].short, "3"]
-            add("pa eval -- " + words_hex(ws), "throw", "free-value-after-flag")
-            add("pa group %s -- %s" % (opt, words_hex(ws)), "throw", "group-free-value-after-flag")
+        # free values behind a key of another member: a key (flag or key with value) ends the value list of a
+        # multi-value argument, also when the two live in different members; the rest of the line is valid, so the
+        # trailing free value is the only reason to refuse it
+        refd = set(j for a_ in args for _, tgt, _s in a_.cons for j in tgt)
+        free_ok = lambda i_: not args[i_].cons and i_ not in refd
+        mv = [i_ for i_, a_ in enumerate(args) if a_.kind == "vec" and a_.multi and a_.maxuses() >= 99 and free_ok(i_)
+              and not a_.checks]
+        fl = [i_ for i_, a_ in enumerate(args) if a_.kind == "flag" and free_ok(i_)]
+        vx = [i_ for i_, a_ in enumerate(args) if a_.kind in ("int", "str") and free_ok(i_)]
+        if mv and (fl or vx) and not globs:
+            i_ = rng.choice(mv)
+            others = [("flag", j) for j in fl] + [("val", j) for j in vx]
+            kind_, j = rng.choice(others)
+            base = [u for u in uses if u[0] not in (i_, j)]
+            bw = G.spell(rng, args, base, abbr)
+            if bw is not None:
+                keyof = lambda a_: ("-" + a_.short) if a_.short else ("--" + a_.long)
+                tail = [keyof(args[i_]), "1", "2", keyof(args[j])]
+                if kind_ == "val":
+                    v_ = G.gen_value(rng, args[j])[0]
+                    if not G.next_word_ok(v_):
+                        v_ = None
+                    else:
+                        tail.append(v_)
+                if kind_ == "flag" or v_ is not None:
+                    ok_line = bw + tail
+                    bad_line = bw + tail + ["3"]
+                    lbl = "free-value-after-" + kind_ + "-key"
+                    exp_ok = G.expected(args, base + [(i_, ("vec", [1, 2])), (j, None if kind_ == "flag" else (v_, G.gen_value and (int(v_) if args[j].kind == "int" else v_)))])
+                    add("pa eval -- " + words_hex(ok_line), exp_ok, lbl + "-ok")
+                    add("pa eval -- " + words_hex(bad_line), "throw", lbl)
+                    for od in ("".join(order), "".join(reversed(order))):
+                        opt2 = "members=%s%s order=%s" % (mem, "/" + gmem if gmem else "", od)
+                        add("pa group %s -- %s" % (opt2, words_hex(ok_line)), exp_ok, "group-" + lbl + "-ok")
+                        add("pa group %s -- %s" % (opt2, words_hex(bad_line)), "throw", "group-" + lbl)
     if "raw" in what:
         longname = False
         if rng.random() < 0.3:
@@ -282,6 +310,47 @@ def make_case(rng, cid, what):
                     opts = "env=" + G.hx(e)
             add("pa eval %s -- %s" % (opts, words_hex(ws)), None, "raw-eval")
     return Case(cid, lines)
+
+
+def group_freevalue_case(rng, cid):
+    """a multi-value list argument in one member, a flag / an argument with value / an optional-value argument in
+    another member, both registration orders: a key of the other member ends the value list, so a free value behind it
+    is refused exactly as by a single handler"""
+    sm, so = rng.sample(G.SHORTS, 2)
+    lm, lo = rng.sample(G.LONGS, 2)
+    okind = rng.choice(["flag", "int", "str", "level"])
+    abbr = rng.randint(0, 1)
+    if abbr and (lm.startswith(lo) or lo.startswith(lm)):
+        abbr = 0
+    lines = ["pa cfg begin abbr=%d" % abbr,
+             "pa arg key=%s,%s kind=vec multi" % (sm, lm),
+             "pa arg key=%s,%s kind=%s" % (so, lo, okind),
+             "pa arg key=Q kind=flag", "pa cfg end"]
+    km = rng.choice(["-" + sm, "--" + lm])
+    ko = rng.choice(["-" + so, "--" + lo])
+    n = rng.randint(1, 3)
+    vals = [rng.randint(0, 40) for _ in range(n)]
+    ov = {"flag": [], "int": [str(rng.randint(0, 99))], "str": [rng.choice(["abc", "x", "v1"])], "level": []}[okind]
+    if okind == "level" and rng.random() < 0.5:
+        ov = ["3"]
+    oexp = {"flag": "f=1", "int": "i=%s" % (ov[0] if ov else 0), "str": "s=%s" % G.hx(ov[0] if ov else ""),
+            "level": "l=%s" % (ov[0] if ov else 1)}[okind]
+    head = [km] + [str(v) for v in vals] + [ko] + ov
+    pre = ["-Q"] if rng.random() < 0.3 else []
+    exp_ok = "ok 0:v=[%s] 1:%s 2:f=%d" % (",".join(map(str, vals)), oexp, 1 if pre else 0)
+    out = []
+    # the free value that must be refused (an optional-value argument without value would take the first word)
+    extra = ["7", "8"] if (okind == "level" and not ov) else ["7"]
+    out.append("pa eval x-lbl=gfv-single-ok x-exp=%s -- %s" % (G.hx(exp_ok), words_hex(pre + head)))
+    out.append("pa eval x-lbl=gfv-single-free x-exp=%s -- %s" % (G.hx("throw"), words_hex(pre + head + extra)))
+    for mem in ("010", "011", "100", "012", "021"):
+        ms = sorted(set(mem))
+        for od in ("".join(ms), "".join(reversed(ms))):
+            if rng.random() < 0.6:
+                o = "members=%s order=%s" % (mem, od)
+                out.append("pa group x-lbl=gfv-group-ok x-exp=%s %s -- %s" % (G.hx(exp_ok), o, words_hex(pre + head)))
+                out.append("pa group x-lbl=gfv-group-free x-exp=%s %s -- %s" % (G.hx("throw"), o, words_hex(pre + head + extra)))
+    return Case(cid, lines + out)
 
 
 def source_multi_case(rng, cid):
